@@ -32,6 +32,14 @@ CLAIMED = {
    text="Deductive proof of checkAuth against its contract: success implies the returned level intersects the endpoint's mask, the identity/level/issue time were established by a verified unexpired keymaster_auth cookie, by a keymaster-signed non-deny-listed client certificate, by an IP-restricted certificate used inside its netblocks by an automation identity whose key is not deny-listed, or by a back-end accepted password after a limiter token; non-GET requests with a foreign Origin/Referer host are refused. The signing wrappers require the ghost 'authenticated' flag that only checkAuth's success sets, and call-graph rules pin the lib/certgen signers to those wrappers.",
    note=TRUST + "Only the certificate-issuing handlers are covered by effect preconditions so far (profile/token effects are claimed under C08 when built); TLS chain verification is trusted (crypto/tls heap invariant).",
    design="7 (C06)"),
+ "C08": dict(
+   text="Deductive proof, per handler that reads or changes a profile or administers users, of the effect preconditions: LoadUserProfile/SaveUserProfile/DeleteUserProfile and the token-management handlers are reached only for the user checkAuth established, or for another user when the ghost admin flag was set by IsAdminUser for that established user and (for token changes/registrations) the established session carries the U2F bit; the user-administration and bootstrap-OTP handlers require the admin flag; automation certificates are signed only after isAutomationAdmin/IsAdminUser accepted the established user and only for a name in the configured automation lists; the admin cache returns a cached verdict only while younger than five minutes unless the directory failed.",
+   note=TRUST + "Group membership lookups (LDAP) are uninterpreted call results. The five-minute rule is proved on admincache.Cache.Get against the ghost clock. Templates rendering a profile are not modelled.",
+   design="7 (C08)"),
+ "C12": dict(
+   text="Deductive proof over the token, authorization and userinfo handlers: tokens are marshalled only after the code verified under a keymaster key with the code kind, unexpired, same redirect URI, and the caller was authenticated as the client bound into the code by secret or (secret-less client that may use PKCE) by a verifier matching the bound challenge; the ID token carries this issuer, the code's client as the only audience, the code's subject, the code's nonce, an expiry no later than the code's 16 h bound; the access token carries that subject and the userinfo audience; userinfo answers only for a verified access token of the access kind whose audience list contains the userinfo audience, with the subject in it.",
+   note=TRUST + "go-jose signing/verification and AES-GCM sealing of the PKCE challenge are trusted contracts; the JWKS handler's publication is covered by C04's published-key predicate.",
+   design="7 (C12)"),
  "C10": dict(
    text="Deductive proof that ValidatePublicKeyStrength accepts exactly the property's strong keys (RSA >= 2048 bits and e >= 65537, NIST >= 256, Ed25519) and that every signing wrapper (SSH, X.509, Kubernetes, automation, refresh) is reached only with a key for which that predicate holds; no-panic obligations (index, nil, type assertion) for the address-extension decoder and the SSH key validator.",
    note=TRUST + "Parsers (x509, ssh, asn1) are trusted to return well-shaped values (type invariant of asn1.BitString; NIST curve sizes). The cloud-role path and panics inside dependency parsers are not covered.",
